@@ -23,6 +23,7 @@ type Obl struct {
 	Src    string
 	Paths  []*OblPath
 	Expect string // "unsat" normally; "sat" for cover obligations
+	failed int32
 }
 
 type loopInfo struct {
@@ -928,7 +929,9 @@ func (e *Engine) runAts(st *State, in ssa.Instruction, after bool) {
 		e.usedAts[at] = true
 		switch at.Kind {
 		case "assert":
-			e.addObl(st, e.oblPrefix(fr.fn)+".assert."+at.C.Label, "assert", at.C.Src, e.evalBool(st, env, at.C.E))
+			g := e.evalBool(st, env, at.C.E)
+			e.addObl(st, e.oblPrefix(fr.fn)+".assert."+at.C.Label, "assert", at.C.Src, g)
+			st.assume(g) // proved above, usable as a lemma afterwards
 		case "assume":
 			st.assume(e.evalBool(st, env, at.C.E))
 			e.noteAssumption(fmt.Sprintf("assume at %s in %s: %s", at.Anchor, e.oblPrefix(fr.fn), at.C.Src))
